@@ -237,7 +237,7 @@ func genFloat0(t *rapid.T, l string, o GenOpts, f32 bool) float64 {
 		return rapid.Float64Range(-1e9, 1e9).Draw(t, l)
 	default:
 		if o.SpecialFloats {
-			return rapid.SampledFrom([]float64{math.NaN(), math.Inf(1), math.Inf(-1), math.MaxFloat32, math.SmallestNonzeroFloat32}).Draw(t, l)
+			return rapid.SampledFrom([]float64{math.NaN(), math.Float64frombits(0xFFF8000000000000), math.Float64frombits(0x7FF8000000000123), math.Inf(1), math.Inf(-1), math.MaxFloat32, math.SmallestNonzeroFloat32}).Draw(t, l) // NaNs of several bit patterns (the quiet NaN, the x86 0/0 result, one with a payload): all NaN
 		}
 		return float64(rapid.IntRange(0, 3).Draw(t, l))
 	}
